@@ -92,11 +92,11 @@ func init() {
 	register(&sup.Check{
 		ID:        "C16",
 		Level:     "model_checking",
-		Technique: "explicit enumeration of all derivation histories (append, seal, serialize/unmarshal) up to depth 4 crossed with all small key-lookup tables, on the real code",
-		Rule:      "4 creation ids (absent, 0, 7, 2^32-1) x all 121 operation sequences over {Append, Seal, Serialize+Unmarshal} of length <= 4 (operations refused on a sealed token leave it unchanged and must return an error) x every key map of size <= 2 over {id, id+1, 0} -> {right key, wrong key} x default in {none, right, wrong}, plus WithSingularRootPublicKey. Oracle: RootKeyID() of every derived token equals the creation id; AuthorizerFor succeeds iff the table maps the token's id (the default when absent) to the right key; errors.Is(err, ErrNoPublicKeyAvailable) iff there is no entry. Non-trivial = history non-empty; distinct by construction. states = (id, history) pairs, transitions = operations executed.",
+		Technique: "explicit enumeration of all derivation histories (append, seal, serialize/unmarshal) up to depth 4 (quick) / 6 (thorough) crossed with all small key-lookup tables, on the real code",
+		Rule:      "4 creation ids (absent, 0, 7, 2^32-1) x 4 creation option orders (with and without WithSymbols) x all 121 (quick) / 1093 (thorough) operation sequences over {Append, Seal, Serialize+Unmarshal} of length <= 4 / 6 (operations refused on a sealed token leave it unchanged and must return an error) x every key map of size <= 2 over {id, id+1, 0} -> {right key, wrong key} x default in {none, right, wrong}, plus WithSingularRootPublicKey. Oracle: RootKeyID() of every derived token equals the creation id; AuthorizerFor succeeds iff the table maps the token's id (the default when absent) to the right key; errors.Is(err, ErrNoPublicKeyAvailable) iff there is no entry. Non-trivial = history non-empty; distinct by construction. states = (id, history) pairs, transitions = operations executed.",
 		Assume:    []string{"the expected lookup result is computed from the table by the statement's rule, not by the library"},
 		Spaces: func(c *sup.Ctx) []*sup.Space {
-			hists := c16Histories(4)
+			hists := c16Histories(sup.Pick(c, 4, 6))
 			type cs struct {
 				id   int
 				hist int
